@@ -991,6 +991,9 @@ func c19cLabelCases(t *testing.T, res *verifResult, logger *testlogger.Logger) (
 	}
 	for round := 0; round < rounds; round++ {
 		for fi, fam := range c19eLabelFamilies(rng) {
+			if fam.class == "long" && round >= 2 {
+				continue // kilobyte labels are repeated in every listing: two rounds of them are enough
+			}
 			type pair struct{ prefix, user, label string }
 			var pairs []pair
 			seen := map[string]bool{}
